@@ -201,6 +201,10 @@ class ExprMixin:
             return
         if cls is not None:
             f = self.prog.lookup_method(cls, attr)
+            if f is not None and f.is_property:
+                # a read-only accessor: reading the attribute runs its body
+                yield from self.inline(f, base, [], {}, st, fx, node)
+                return
             if f is not None:
                 yield "ok", ("bm", base, f), st
                 return
